@@ -1,0 +1,34 @@
+//go:build verif
+
+// Verification contracts (comments only; compiled only with -tags verif).
+// Checked by /verif/bin/govc; see /verif/DESIGN.md.
+
+package multinode
+
+//@ type Service
+//@   // established by New (parseAndCheckParameters rejects a nil client monitor and empty submitter maps);
+//@   // the submitters are the beacon node clients built in main.go, none of them nil
+//@   valid self.clientMonitor != nil
+//@   valid forall k string :: in(self.syncCommitteeMessagesSubmitter, k) ==> !isnil(self.syncCommitteeMessagesSubmitter[k])
+//@
+//@ extern golang.org/x/sync/semaphore.NewWeighted
+//@   ensures result != nil
+//@
+//@ func (*Service).serviceInfo
+//@   assumes call NodeVersion#1 (r, err): err == nil ==> r != nil
+//@   modifies nothing
+//@
+//@ func (*Service).SubmitSyncCommitteeMessages
+//@   requires s != nil
+//@   // the messages are built by Vouch's own sync committee messenger
+//@   requires forall k int :: 0 <= k && k < len(messages) ==> messages[k] != nil
+//@
+//@ func (*Service).SubmitSyncCommitteeMessages$1
+//@   requires s != nil && w != nil
+//@
+//@ func (*Service).submitSyncCommitteeMessages
+//@   requires s != nil && sem != nil && w != nil && submissionCompleted != nil && !isnil(submitter)
+//@   requires len(messages) > 0 && messages[0] != nil
+//@
+//@ func (*Service).handleSubmitSyncCommitteeMessagesError
+//@   requires s != nil && !isnil(err)
